@@ -7,8 +7,7 @@
   `LastChild`.  Strings are `List Char`.
 
   Every `selMatch` clause mirrors the `Match` method of the Go type named beside it, quirks
-  included (blank test of `^= $= *=`, `matchInclude` with an empty value, `:root` = any `html`
-  element, attribute tests that do not look at the node type, `neverMatchSelector` weighing 0).
+  included (`^= $= *=` never match a blank attribute value — kept by the repository's own tests).
   Not modelled (outside the grammar of the property): `#=`, `:contains*`, `:matches*`, `:input`,
   `:link`, `:lang`, `:enabled`, `:disabled`, `:checked`.
 -/
@@ -18,9 +17,9 @@ abbrev Str := List Char
 
 /-! ## DOM -/
 
-/-- `html.NodeType`: ElementNode, TextNode, CommentNode, anything else (Document, Doctype, …). -/
+/-- `html.NodeType`: ElementNode, TextNode, CommentNode, DocumentNode, anything else (Doctype, …). -/
 inductive Kind where
-  | elem | text | comment | other
+  | elem | text | comment | doc | other
   deriving DecidableEq, Repr
 
 abbrev Attr := Str × Str
@@ -144,10 +143,12 @@ def isGoSpace (c : Char) : Bool :=
 /-- `strings.TrimSpace(s) == ""` -/
 def isBlank (s : Str) : Bool := s.all isGoSpace
 
+/-- `strings.Trim(s, " \t\r\n\f") == ""` -/
+def isDocBlank (s : Str) : Bool := s.all isAsciiWs
+
 def lowerChar (c : Char) : Char := c.toLower
 
-/-- `strings.ToLower` / the folding of `strings.EqualFold`, on ASCII strings (assumption: the `i`
-    flag is only exercised on ASCII values, where both are ASCII lower-casing) -/
+/-- `asciiLower` of selector.go: the `i` flag is ASCII case-insensitive -/
 def lower (s : Str) : Str := s.map lowerChar
 
 /-- `matchInsensitiveValue` -/
@@ -176,11 +177,12 @@ def matchIncludeFuel (val : Str) (ic : Bool) : Nat → Str → Bool
     | (w, none) => eqVal w val ic
     | (w, some rest) => if eqVal w val ic then true else matchIncludeFuel val ic fuel rest
 
-def matchInclude (val s : Str) (ic : Bool) : Bool := matchIncludeFuel val ic (s.length + 1) s
+def matchInclude (val s : Str) (ic : Bool) : Bool :=
+  if val.isEmpty then false else matchIncludeFuel val ic (s.length + 1) s
 
-/-- `matchAttribute` -/
-def matchAttribute (attrs : List Attr) (key : Str) (f : Str → Bool) : Bool :=
-  attrs.any (fun a => a.1 == key && f a.2)
+/-- `matchAttribute`: only element nodes have attributes (a Doctype node also has `Attr`) -/
+def matchAttribute (kind : Kind) (attrs : List Attr) (key : Str) (f : Str → Bool) : Bool :=
+  kind == .elem && attrs.any (fun a => a.1 == key && f a.2)
 
 /-! ## selector AST (the Go types of selector.go / pseudo_classes.go) -/
 
@@ -288,7 +290,7 @@ def emptyLoop : List Node → Bool
   | c :: cs =>
     match c.kind with
     | .elem => false
-    | .text => if isBlank c.data then emptyLoop cs else false
+    | .text => if isDocBlank c.data then emptyLoop cs else false
     | _ => emptyLoop cs
 
 /-! ## attribute selectors -/
@@ -305,20 +307,20 @@ def valMatch (val : Str) (op : AttrOp) (ic : Bool) (s : Str) : Bool :=
       else if s.length ≤ val.length then false
       else s[val.length]? == some '-' && eqVal (s.take val.length) val ic
   | .pre =>
-      if isBlank s then false
+      if val.isEmpty || isBlank s then false
       else if ic then (lower val).isPrefixOf (lower s) else val.isPrefixOf s
   | .suf =>
-      if isBlank s then false
+      if val.isEmpty || isBlank s then false
       else if ic then (lower val).isSuffixOf (lower s) else val.isSuffixOf s
   | .sub =>
-      if isBlank s then false
+      if val.isEmpty || isBlank s then false
       else if ic then containsSub (lower s) (lower val) else containsSub s val
 
 /-- `attrSelector.Match`; `!=` is `attributeNotEqualMatch` -/
 def attrMatch (key val : Str) (op : AttrOp) (ic : Bool) (l : Loc) : Bool :=
   match op with
-  | .ne => l.kind == .elem && !(matchAttribute l.attrs key (valMatch val .ne ic))
-  | op => matchAttribute l.attrs key (valMatch val op ic)
+  | .ne => l.kind == .elem && !(l.attrs.any (fun a => a.1 == key && valMatch val .ne ic a.2))
+  | op => matchAttribute l.kind l.attrs key (valMatch val op ic)
 
 /-! ## Match -/
 
@@ -333,14 +335,16 @@ def adjacentOf (l : Loc) : Option Loc :=
 mutual
   def selMatch : Sel → Loc → Bool
     | .tag name, l => l.kind == .elem && l.data == name
-    | .cls name, l => matchAttribute l.attrs classKey (fun s => matchInclude name s false)
-    | .id name, l => matchAttribute l.attrs idKey (fun s => s == name)
+    | .cls name, l => matchAttribute l.kind l.attrs classKey (fun s => matchInclude name s false)
+    | .id name, l => matchAttribute l.kind l.attrs idKey (fun s => s == name)
     | .attr key val op ic, l => attrMatch key val op ic l
     | .nth a b last ofType, l =>
       if a == 0 then simpleNthMatch b last ofType l else nthChildMatch a b last ofType l
     | .only ofType, l => onlyMatch ofType l
     | .empty, l => l.kind == .elem && emptyLoop l.node.children
-    | .root, l => l.kind == .elem && l.data == htmlTag
+    | .root, l =>
+      l.kind == .elem && l.data == htmlTag &&
+      (match l.parent? with | some p => p.kind == .doc | none => false)
     | .never _, _ => false
     | .rel k args, l =>
       l.kind == .elem &&
@@ -399,7 +403,7 @@ mutual
     | .only _ => ⟨0, 1, 0⟩
     | .empty => ⟨0, 1, 0⟩
     | .root => ⟨0, 1, 0⟩
-    | .never _ => ⟨0, 0, 0⟩
+    | .never _ => ⟨0, 1, 0⟩
     | .rel _ args => specMax args .zero
     | .compound pe sels =>
       let out := specSum sels .zero
